@@ -257,7 +257,7 @@ with parse_identifier (fuel : nat) (p : pst) : M expr :=
       if peek_is p ASSIGN then
         (* parseAssignExpression: expectPeek(ASSIGN) succeeds *)
         let* (v, p1) := parse_expression f LOWEST (next (next p)) in
-        ret (EAssign id v) (skip_semi p1)
+        ret (EAssign id v) p1        (* the semicolon is left to the enclosing statement *)
       else ret id p
   end
 
